@@ -2,6 +2,7 @@ package main
 
 import (
 	"fmt"
+	"sync/atomic"
 	"os"
 	"runtime/debug"
 	"sort"
@@ -26,6 +27,7 @@ type RunCfg struct {
 	Unwind    int              `json:"unwind_limit"`
 	Covers    []string         `json:"required_covers,omitempty"`
 	Witness   int              `json:"witness_samples,omitempty"`
+	MaxWallS  int              `json:"max_wall_s,omitempty"`
 	FixedPath []int            `json:"-"`
 }
 
@@ -117,6 +119,19 @@ func explore(p *Program, cfg RunCfg) (*RunResult, error) {
 	} else {
 		pool.put(task{})
 	}
+	if cfg.MaxWallS <= 0 {
+		cfg.MaxWallS = 900
+	}
+	var expired int32
+	wd := time.AfterFunc(time.Duration(cfg.MaxWallS)*time.Second, func() {
+		atomic.StoreInt32(&expired, 1)
+		pool.mu.Lock()
+		pool.closed = true
+		pool.queue = nil
+		pool.mu.Unlock()
+		pool.cond.Broadcast()
+	})
+	defer wd.Stop()
 	var wg sync.WaitGroup
 	fatal := make(chan string, cfg.Workers)
 	for w := 0; w < cfg.Workers; w++ {
@@ -146,7 +161,14 @@ func explore(p *Program, cfg RunCfg) (*RunResult, error) {
 				for {
 					sol.reset()
 					it := newInterp(p, sol, ex, &cfg, fnSteps)
+					it.expired = &expired
 					why := runPath(it, fn)
+					if atomic.LoadInt32(&expired) == 1 {
+						res.mu.Lock()
+						res.Inconc[fmt.Sprintf("wall-clock limit of %d s reached before the bound was explored", cfg.MaxWallS)]++
+						res.mu.Unlock()
+						break
+					}
 					res.finishPath(it, why, ex)
 					if cfg.FixedPath != nil {
 						break
